@@ -3,5 +3,5 @@
 # /verif/baseline/obligations.json (run on the pinned, unchanged tree only; the file is committed, never written by a check run).
 cd /verif
 for p in ${@:-C02 C04 C05 C06 C08 C09 C10 C15 C17 C18 C19}; do
-  ./check $p --tier quick --write-inventory > /tmp/inv_$p.log 2>&1; echo "$p exit=$? $(tail -n 1 /tmp/inv_$p.log)"
+  PYVC_NO_INVENTORY=1 ./check $p --tier quick --write-inventory > /tmp/inv_$p.log 2>&1; echo "$p exit=$? $(tail -n 1 /tmp/inv_$p.log)"
 done
